@@ -477,11 +477,11 @@ Definition sverdict (s : sstate) : Z :=
    object" (thread.c:126-135, 290-456, 637-725, 769-898; thread-common.c:146-160).
    Native (non-custom) semaphore, pthread barrier, NDEBUG uv_mutex_init. *)
 Inductive uvfn :=
-| UvMutexInit | UvMutexDestroy | UvMutexLock | UvMutexTrylock | UvMutexUnlock
+| UvMutexInit | UvMutexInitRecursive | UvMutexDestroy | UvMutexLock | UvMutexTrylock | UvMutexUnlock
 | UvRwlockInit | UvRwlockDestroy | UvRwlockRdlock | UvRwlockTryrdlock | UvRwlockRdunlock
 | UvRwlockWrlock | UvRwlockTrywrlock | UvRwlockWrunlock
 | UvSemInit | UvSemDestroy | UvSemPost | UvSemWait | UvSemTrywait
-| UvCondDestroy | UvCondSignal | UvCondBroadcast | UvCondWait | UvCondTimedwait
+| UvCondInit | UvCondDestroy | UvCondSignal | UvCondBroadcast | UvCondWait | UvCondTimedwait
 | UvOnce | UvKeyCreate | UvKeyDelete | UvKeyGet | UvKeySet
 | UvThreadJoin | UvBarrierInit | UvBarrierWait | UvBarrierDestroy.
 
@@ -489,19 +489,21 @@ Inductive pfn :=
 | PMutexInit | PMutexDestroy | PMutexLock | PMutexTrylock | PMutexUnlock
 | PRwInit | PRwDestroy | PRwRdlock | PRwTryrdlock | PRwWrlock | PRwTrywrlock | PRwUnlock
 | PSemInit | PSemDestroy | PSemPost | PSemWait | PSemTrywait
-| PCondDestroy | PCondSignal | PCondBroadcast | PCondWait | PCondTimedwait
+| PCondInit | PCondDestroy | PCondSignal | PCondBroadcast | PCondWait | PCondTimedwait
 | POnce | PKeyCreate | PKeyDelete | PGetspecific | PSetspecific
 | PJoin | PBarrierInit | PBarrierWait | PBarrierDestroy.
 
 Definition passthrough (f : uvfn) : pfn :=
   match f with
-  | UvMutexInit => PMutexInit | UvMutexDestroy => PMutexDestroy | UvMutexLock => PMutexLock
+  | UvMutexInit => PMutexInit | UvMutexInitRecursive => PMutexInit
+  | UvMutexDestroy => PMutexDestroy | UvMutexLock => PMutexLock
   | UvMutexTrylock => PMutexTrylock | UvMutexUnlock => PMutexUnlock
   | UvRwlockInit => PRwInit | UvRwlockDestroy => PRwDestroy
   | UvRwlockRdlock => PRwRdlock | UvRwlockTryrdlock => PRwTryrdlock | UvRwlockRdunlock => PRwUnlock
   | UvRwlockWrlock => PRwWrlock | UvRwlockTrywrlock => PRwTrywrlock | UvRwlockWrunlock => PRwUnlock
   | UvSemInit => PSemInit | UvSemDestroy => PSemDestroy | UvSemPost => PSemPost
   | UvSemWait => PSemWait | UvSemTrywait => PSemTrywait
+  | UvCondInit => PCondInit
   | UvCondDestroy => PCondDestroy | UvCondSignal => PCondSignal | UvCondBroadcast => PCondBroadcast
   | UvCondWait => PCondWait | UvCondTimedwait => PCondTimedwait
   | UvOnce => POnce | UvKeyCreate => PKeyCreate | UvKeyDelete => PKeyDelete
@@ -511,11 +513,11 @@ Definition passthrough (f : uvfn) : pfn :=
   end.
 
 Definition all_uvfn : list uvfn :=
-  [UvMutexInit; UvMutexDestroy; UvMutexLock; UvMutexTrylock; UvMutexUnlock;
+  [UvMutexInit; UvMutexInitRecursive; UvMutexDestroy; UvMutexLock; UvMutexTrylock; UvMutexUnlock;
    UvRwlockInit; UvRwlockDestroy; UvRwlockRdlock; UvRwlockTryrdlock; UvRwlockRdunlock;
    UvRwlockWrlock; UvRwlockTrywrlock; UvRwlockWrunlock;
    UvSemInit; UvSemDestroy; UvSemPost; UvSemWait; UvSemTrywait;
-   UvCondDestroy; UvCondSignal; UvCondBroadcast; UvCondWait; UvCondTimedwait;
+   UvCondInit; UvCondDestroy; UvCondSignal; UvCondBroadcast; UvCondWait; UvCondTimedwait;
    UvOnce; UvKeyCreate; UvKeyDelete; UvKeyGet; UvKeySet;
    UvThreadJoin; UvBarrierInit; UvBarrierWait; UvBarrierDestroy].
 
@@ -523,3 +525,38 @@ Definition all_uvfn : list uvfn :=
    uv_sem_init runs uv_once(&glibc_version_check_once, ...) first (thread.c:685-687) *)
 Definition passthrough_pre (f : uvfn) : list pfn :=
   match f with UvSemInit => [POnce] | _ => [] end.
+
+(* What the init wrappers ask pthread for (thread.c:316-355, 390-392, 637-641, 738-765;
+   thread-common.c:146-148): the observable settings of the attribute object handed to the
+   pthread init function, NULL counting as an object with the default settings, plus the
+   by-value arguments.  [debug] = built without NDEBUG and PTHREAD_MUTEX_ERRORCHECK is a
+   preprocessor macro: only then does uv_mutex_init ask for an error-checking mutex
+   (#if defined(NDEBUG) || !defined(PTHREAD_MUTEX_ERRORCHECK)).  On glibc the constant is an
+   enumerator, not a macro, so the plain branch is compiled in every build there.
+   [arg] = the value/count the caller passed. *)
+Definition PTHREAD_MUTEX_NORMAL : Z := 0.
+Definition PTHREAD_MUTEX_RECURSIVE : Z := 1.
+Definition PTHREAD_MUTEX_ERRORCHECK : Z := 2.
+Definition PTHREAD_RWLOCK_PREFER_READER : Z := 0.      (* the default kind: readers are admitted
+                                                          whenever no writer HOLDS the lock *)
+Definition CLOCK_REALTIME : Z := 0.
+Definition CLOCK_MONOTONIC : Z := 1.
+
+Inductive init_req :=
+| IMutex (type : Z)                 (* pthread_mutexattr_gettype *)
+| IRwlock (kind : Z)                (* pthread_rwlockattr_getkind_np *)
+| ICond (clock : Z)                 (* pthread_condattr_getclock *)
+| ISem (pshared value : Z)          (* sem_init(sem, pshared, value) *)
+| IBarrier (count : Z)              (* pthread_barrier_init(b, attr, count) *)
+| INotInit.
+
+Definition init_request (debug : bool) (f : uvfn) (arg : Z) : init_req :=
+  match f with
+  | UvMutexInit => IMutex (if debug then PTHREAD_MUTEX_ERRORCHECK else PTHREAD_MUTEX_NORMAL)
+  | UvMutexInitRecursive => IMutex PTHREAD_MUTEX_RECURSIVE
+  | UvRwlockInit => IRwlock PTHREAD_RWLOCK_PREFER_READER
+  | UvCondInit => ICond CLOCK_MONOTONIC
+  | UvSemInit => ISem 0 arg
+  | UvBarrierInit => IBarrier arg
+  | _ => INotInit
+  end.
